@@ -10,7 +10,7 @@ use std::sync::atomic::{AtomicU64, Ordering};
 use vmodel::glue::AsData;
 use vmodel::schema::*;
 use vmodel::shape::*;
-use vmodel::spec::{spec_decode, spec_encode, varint};
+use vmodel::spec::{spec_decode, varint};
 
 // ---------------------------------------------------------------------------------------------
 // C17
@@ -210,8 +210,12 @@ pub fn run_c17(ctx: &Ctx) {
                     continue;
                 }
             };
+            // "the bytes the static encoder yields"
+            let bytes = match crate::checks::c05::real_plain(v) {
+                Some(b) => b,
+                None => continue,
+            };
             n.fetch_add(1, Ordering::Relaxed);
-            let bytes = spec_encode(v).unwrap();
             let order = (si as u64) << 20 | vi as u64;
             let case = || json!({"shape": s, "value": v, "json": j, "static_bytes": hex(&bytes)});
             // encode direction
